@@ -78,6 +78,18 @@ def run(v, tier, replay):
                 diffs.append((opens[e["i"]], e["fence"]))
             else:
                 v.cov["traces_validated_against_impl"] += 1
+    if diffs and orc == 0:
+        # a difference counts only if it is reproduced when the behaviour is run again on its own (the fence is a
+        # timed observation; a loaded machine may be late once)
+        again = [d[0] for d in diffs]
+        v.cov["session_model_differences_first_pass"] = len(diffs)
+        json.dump(again, open(of_in + ".again", "w"))
+        arc, aso, ase = lib.overlay_test("hopserver", "^TestVerifHostileTubeOpens$", env_extra={"VT_IN": of_in + ".again", "VT_OUT": of_out + ".again"}, timeout=600)
+        aev = lib.read_ndjson(of_out + ".again") if os.path.exists(of_out + ".again") else []
+        if arc != 0 or not any(e["ev"] == "summary" for e in aev):
+            raise lib.Inconclusive("re-run of differing session behaviours failed: %s" % (aso + ase)[-1500:])
+        diffs = [(again[e["i"]], e["fence"]) for e in aev if e["ev"] == "session" and e.get("admitted") == "yes"
+                 and ((again[e["i"]]["phase"] == "loop" and e["fence"] != "eof") or (again[e["i"]]["phase"] == "closed" and e["fence"] == "eof"))]
     v.cov["session_model_differences"] = len(diffs)
     ov = lib.read_ndjson(ov_out)
     for e in ov:
@@ -114,7 +126,7 @@ def run(v, tier, replay):
     if not r.ok:
         raise lib.Inconclusive("trace not consumed: %s\n%s" % (r.kind, r.out[-1500:]))
     v.cov["traces_validated_against_impl"] += len(jobs)
-    if diffs and not v.violations:
+    if diffs and not v.viol:
         raise lib.Inconclusive("session model and code differ on %d tube-open sequence(s), e.g. %s: the model says phase %s, the fence tube saw %s" % (len(diffs), json.dumps(diffs[0][0]["seq"]), diffs[0][0]["phase"], diffs[0][1]))
     v.cov["rule"] = "one case = one hostile frame injected (class x flag byte) or one byte string fed to a decoder; all are non-trivial (peer-controlled input)"
     for e in events[:2] + [e for e in events if e["ev"] == "decode"][:2]:
